@@ -1154,6 +1154,17 @@ class Interp:
             return True
         if (v, False) in s.facts:
             return False
+        if v[0] == "call" and v[1] == ("builtin", "isinstance") and len(v[2]) == 2 and v[2][0][0] == "global":
+            # isinstance(<module-level singleton NAME = C()>, C): decided by the singleton's class
+            inst_cls = self._singleton_class(v[2][0])
+            if inst_cls is not None:
+                cands = [v[2][1]] if v[2][1][0] != "tuple" else list(v[2][1][1])
+                if all(c_[0] == "cls" for c_ in cands):
+                    try:
+                        mro_ = [x.fq for x in self.p.mro(self.p.cls(inst_cls)) if isinstance(x, ClassInfo)]
+                        return any(c_[1] in mro_ for c_ in cands)
+                    except Exception:
+                        pass
         if v[0] == "cmp":
             op, a, b = v[1], v[2], v[3]
             if a[0] == "const" and b[0] == "const":
@@ -1184,6 +1195,8 @@ class Interp:
                     return False
             if op == "Eq" and a == b and a[0] != "top":
                 return True
+            if op == "Is" and a == b and a[0] == "attr" and a[1][0] == "cls" and a[2].isupper() and self._is_enum(a[1][1]):
+                return True  # the same member of one Enum
             if op in ("Eq", "Is") and a[0] == "attr" and b[0] == "attr" and a[1] == b[1] and a[1][0] == "cls" and a[2] != b[2] \
                     and a[2].isupper() and b[2].isupper() and self._is_enum(a[1][1]):
                 return False  # two different members of one Enum
@@ -1479,6 +1492,22 @@ class Interp:
             out = None
         cache[key] = out
         return out
+
+    def _singleton_class(self, v: Value) -> Optional[str]:
+        """fq of the repository class C when v is ('global', 'mod:NAME') and the module defines NAME = C() (no arguments)"""
+        if not (isinstance(v, tuple) and len(v) == 2 and v[0] == "global" and isinstance(v[1], str) and ":" in v[1]):
+            return None
+        mname, name = v[1].split(":", 1)
+        try:
+            mod_ = self.p.module(mname)
+            d = mod_.constants.get(name)
+            if isinstance(d, ast.Call) and isinstance(d.func, ast.Name) and not d.args and not d.keywords:
+                r_ = self.p.lookup_name(mod_, d.func.id)
+                if isinstance(r_, ClassInfo):
+                    return r_.fq
+        except Exception:
+            return None
+        return None
 
     def _is_sentinel(self, v: Value) -> bool:
         """('global', 'mod:NAME') whose module-level definition is `NAME = object()`"""
@@ -2061,7 +2090,8 @@ class Interp:
         arglist = list(args)
         is_method = fi.cls is not None and fi.parent is None and "staticmethod" not in fi.decorators
         if is_method and "classmethod" in fi.decorators and (recv is None or recv == ("param", "self")):
-            recv = ("cls", (self.frame.self_cls or fi.cls).fq) if recv is None else ("attr", recv, "__class__")
+            own_ = self.frame.self_cls if (self.frame.self_cls is not None and fi.cls in self.p.mro(self.frame.self_cls)) else fi.cls
+            recv = ("cls", own_.fq) if recv is None else ("attr", recv, "__class__")
         if is_method and recv is not None:
             arglist = [recv] + arglist
         elif is_method and recv is None:
@@ -2186,6 +2216,11 @@ def text_term(v: Value) -> Value:
     gives (constants merged), so that rules see WHAT the text is made of, not which formatting idiom wrote it. Terms that
     involve no constant str text (`a + b` of two unknowns, bytes arithmetic) are left as they are."""
     if v[0] == "binop" and v[1] == "Add":
+        # x + "" and "" + x are x (the other operand of a str `+` is a str, or the statement raises)
+        if v[3] == ("const", ""):
+            return v[2]
+        if v[2] == ("const", ""):
+            return v[3]
         if not any(x[0] == "fstr" or (x[0] == "const" and isinstance(x[1], str)) for x in (v[2], v[3])):
             return v
     elif v[0] == "binop" and v[1] == "Mod":
